@@ -106,6 +106,14 @@ CHECKS["C16"] = dict(
     note="placement/type rules of //go:embed (compiler's job) are not covered; error classes compared for information only",
     design="5 C16")
 
+CHECKS["C05"] = dict(
+    engine="tlc-trace-validation+llgo",
+    technique="TLA+ SliceModel (heap of arrays + slice windows; growth capacity free) with TLC trace validation of the per-step state logged by an llgo-compiled script interpreter; Utf8/StringOps tables computed by TLC",
+    text="~195k TLC-enumerated scripts (operands at every window boundary, one beyond, inverted, omitted) plus seeded long scripts crossing growth thresholds run in an llgo-compiled generic interpreter for element sizes 0,1,2,3,8,24; logs are validated against SliceModel (aliasing validated behaviourally). "
+         "Every byte string over a UTF-8 boundary alphabet up to length 4: range iteration, []rune, string(rune), comparison, slicing must equal the decoder automaton's results.",
+    note="quick validates a stratified sample of the logs (all that deviate from the reference first); the unseen tail of a fresh array is unconstrained",
+    design="5 C05")
+
 NOT_YET = {}
 
 props = [json.loads(l) for l in open(os.path.join(V, "properties.jsonl"))]
